@@ -207,7 +207,7 @@ theorem life_tok_step {s s' : State} {e : Ev} (hctl : Ctl s) (h : Tok san s) (hs
     · next hpc =>
       split at hs
       · cases hs
-        exact h.setC t .returnedNil rfl rfl rfl rfl rfl rfl (by simp)
+        exact h.setC t .waitWinner rfl rfl rfl rfl rfl rfl (by simp)
       · next hclosed =>
         split at hs
         · cases hs
@@ -305,6 +305,10 @@ theorem life_tok_step {s s' : State} {e : Ev} (hctl : Ctl s) (h : Tok san s) (hs
         exact h.setC t (.returned none) rfl rfl rfl rfl rfl rfl (by simp)
     · cases hs
     · cases hs
+    · split at hs
+      · cases hs
+        exact h.setC t .returnedNil rfl rfl rfl rfl rfl rfl (by simp)
+      · cases hs
   | closerEnd t =>
     simp only [step] at hs
     split at hs
@@ -745,6 +749,8 @@ theorem rootFlag_step {s s' : State} {e : Ev} (hctl : Ctl s) (hI : Inv san (shad
     · split at hs <;> cases hs <;> exact hkeep _ rfl rfl
     · cases hs
     · cases hs
+    · split at hs <;> cases hs
+      exact hkeep _ rfl rfl
   | closerEnd t =>
     simp only [step] at hs
     repeat' split at hs
